@@ -2,7 +2,8 @@
 """Print the sub-agent prompt for seeding a property-breaking change (property text only; nothing from /verif)."""
 import json, sys
 pid = sys.argv[1].upper()
-wt = f"/tmp/wt/{pid.lower()}"
+round2 = len(sys.argv) > 2
+wt = f"/tmp/wt/{pid.lower()}" + ("r2" if round2 else "")
 p = next(json.loads(l) for l in open("/verif/properties.jsonl") if json.loads(l)["id"] == pid)
 print(f"""You are helping to evaluate a verification effort by playing the role of a developer who introduces a subtle regression.
 
@@ -15,7 +16,7 @@ Here is a semantic property the library is supposed to satisfy:
   Quantifier: {p['quantifier']['text']}
   Code anchored in: {', '.join(p['anchors']['files'])}
 
-TASK: produce TWO different, independent changes ("mutants") to the library source under {wt}/src/icalendar (not to its tests) such that each one
+TASK: produce {"THREE" if round2 else "TWO"} different, independent changes ("mutants") to the library source under {wt}/src/icalendar (not to its tests) such that each one
   (a) BREAKS the property above (a clause of its statement becomes false for some inputs / histories / configurations),
   (b) still imports fine and the ENTIRE existing test suite still passes exactly as before.  Run it with:
         cd {wt} && PYTHONPATH={wt}/src /venv/bin/python -m pytest -q -p no:cacheprovider -x --deselect "src/icalendar/tests/test_issue_722_generate_vtimezone.py::test_we_can_identify_dateutil_timezones" --deselect "src/icalendar/tests/test_timezone_identification.py::test_can_identify_dateutil" 2>&1 | tail -5
@@ -24,11 +25,11 @@ TASK: produce TWO different, independent changes ("mutants") to the library sour
   (d) comes with a small stand-alone demonstration program that exits non-zero (assertion failure) WITH the change and exits 0 WITHOUT it, when run as
         PYTHONPATH={wt}/src /venv/bin/python demo.py
 
-Procedure for each mutant k in (1, 2):
+Procedure for each mutant k in {"(1, 2, 3)" if round2 else "(1, 2)"}:
   1. Start from a clean tree: `git -C {wt} checkout -- . `
   2. Edit the source, run the full suite as above and make sure it is still green.
   3. Write the demo, verify it FAILS with the change; then `git -C {wt} stash`, verify the demo PASSES on the clean tree; `git -C {wt} stash pop`.
   4. Save:  mkdir -p {wt}/SEED/{{k}} ; git -C {wt} diff -- src > {wt}/SEED/{{k}}/patch.diff ; the demo as {wt}/SEED/{{k}}/demo.py ; and {wt}/SEED/{{k}}/meta.json with keys: "property" ("{pid}"), "clause_broken" (which part of the statement), "what_it_needs_to_manifest", "why_tests_still_pass", "commands_run" (list of strings, with observed results).
-  5. Restore the clean tree again (`git -C {wt} checkout -- .`) before the next mutant.  The two mutants must touch different logic / break different clauses where possible.
+  5. Restore the clean tree again (`git -C {wt} checkout -- .`) before the next mutant.  The mutants must touch different logic / break different clauses where possible.{" Prefer code paths AWAY from the most obvious function for this property: helper modules, type constructors, rarely used parameters, interactions between two modules, the second provider, error paths." if round2 else ""}
 
 Finish with a short report: for each mutant the one-line description, what triggers it, and confirmation of (b) and (d) with the observed outputs.  If you cannot find a change that keeps the suite green, say so rather than weakening the requirements.""")
